@@ -1,2 +1,72 @@
-/- C20 correspondence driver (stub: replaced when the property's model is built) -/
-def main : IO Unit := IO.println "stub"
+import PnVerif.Model.Tools
+import PnVerif.Model.HeaderText
+/-
+  C20 correspondence driver.  One request per line on stdin, one answer per line on stdout.
+
+    V <hexfile>            -> V <verdict> <spec>
+                                verdict = Tools.validateCode (ok | enullpad | <fatal error>)
+                                spec    = 1 if Spec.specDecode (the independent BNF decoder) accepts, else 0
+    D <hexA> <hexB>        -> D <cdfdiff> <ncmpidiff> <leq>
+                                cdfdiff   = Tools.toolDiff cdfdiffCfg on the validator's parse of both files:
+                                            crash | invalid | <numHeadDIFF>,<numVarDIFF>
+                                ncmpidiff = Tools.toolDiff ncmpidiffCfg on the library reader's parse (Header.decodeWhole)
+                                leq       = Tools.logicalEqB on the library reader's parse (1/0, - if a file is invalid)
+    O <hexfile>            -> O <xsz> <extent> {<begin> <end>}*     (Tools.offsetsReport on Header.decodeWhole; ERR <code>)
+
+  hex syntax: PnVerif/Model/HeaderText.lean
+-/
+open PnVerif PnVerif.Spec PnVerif.Header PnVerif.HeaderText PnVerif.Tools
+
+def showOut (o : DiffOut) : String :=
+  match o with
+  | .crash => "crash"
+  | .counts h v => s!"{h},{v}"
+
+def cdfView (f : Bytes) : Option LFile :=
+  match vGetNC f with
+  | .ok (h, info, _) => some (absFile h info.recsize f)
+  | .error _ => none
+
+def libView (f : Bytes) : Option LFile :=
+  match decodeWhole f with
+  | .ok (h, info) => some (absFile h info.recsize f)
+  | .error _ => none
+
+def step (line : String) : String :=
+  match tokens line.trimAscii.toString with
+  | ["V", hx] =>
+    match ofHex hx with
+    | some f => s!"V {validateCode f} {if (specDecode f).isSome then 1 else 0}"
+    | none => "bad-hex"
+  | ["D", ha, hb] =>
+    match ofHex ha, ofHex hb with
+    | some fa, some fb =>
+      let c := match cdfView fa, cdfView fb with
+        | some a, some b => showOut (toolDiff cdfdiffCfg a b)
+        | _, _ => "invalid"
+      let (m, l) := match libView fa, libView fb with
+        | some a, some b => (showOut (toolDiff ncmpidiffCfg a b), if logicalEqB a b then "1" else "0")
+        | _, _ => ("invalid", "-")
+      s!"D {c} {m} {l}"
+    | _, _ => "bad-hex"
+  | ["O", hx] =>
+    match ofHex hx with
+    | some f =>
+      match decodeWhole f with
+      | .ok (h, info) =>
+        let (xsz, ext, vs) := offsetsReport h info
+        let body := String.intercalate " " (vs.map (fun (b, e) => s!"{b} {e}"))
+        s!"O {xsz} {ext} {body}"
+      | .error e => s!"ERR {e.code}"
+    | none => "bad-hex"
+  | _ => "bad-op"
+
+partial def loop (h : IO.FS.Stream) (out : IO.FS.Stream) : IO Unit := do
+  let line ← h.getLine
+  if line.isEmpty then return ()
+  out.putStrLn (step line)
+  loop h out
+
+def main : IO Unit := do
+  let out ← IO.getStdout
+  loop (← IO.getStdin) out
